@@ -127,6 +127,13 @@ func genWire(ctx *Ctx, emit func(Case)) {
 		if !useBox {
 			boxes, syms, key = "-", "s:"+keys.Hex(symk)+":"+keys.Hex(ident), "s:"+keys.Hex(symk)
 		}
+		if snd == "anon" {
+			// an ANONYMOUS message right after a named one of the same size class in this process: whatever the sender
+			// recycles between messages (a staging buffer that still holds the previous signature) must not leak into it —
+			// the specification asks for 64 zero bytes where a named sender's signature would be
+			lp := fmt.Sprintf("sc.seal %s %s %s g:%s %s %d %s", keys.Hex(signer), boxes, syms, keys.Hex(r.Bytes(32)), randScript(r, 1, false, -1, 0).Spec(), mib, keys.Hex(r.Bytes(n)))
+			goExec(lp)
+		}
 		l := fmt.Sprintf("sc.seal %s %s %s g:%s %s %d %s", snd, boxes, syms, keys.Hex(r.Bytes(32)), randScript(r, 1, false, -1, 0).Spec(), mib, keys.Hex(msgb))
 		o := goExec(l)
 		emit(Case{Stream: "wire.sc", Line: l, GoOut: o, Branch: fmt.Sprintf("%s/box=%v/anon=%v", sizeClass(n), useBox, snd == "anon"),
